@@ -30,7 +30,7 @@ def _c08():
     # "occupancy, detected decoder addresses" of the C07 statement are the C08 step harness (real bm_occ / bm_address /
     # bm_multiple against a reference on an arbitrary pre-state)
     from check import borrow
-    return borrow("C08", lambda q: q.name in ("occ", "address-1", "address-2", "multiple-8", "multiple-16"))
+    return borrow("C08", lambda q: q.name in ("occ", "address-0", "address-1"))
 
 
 def queries():
